@@ -176,14 +176,24 @@ impl Prop for C04 {
                 break;
             }
             let esi = ctx.rng.chance(1, 10);
-            let o = structgen::Opts { foreign: ctx.rng.chance(2, 3), max_nodes: 16, esi, nonascii: ctx.rng.chance(1, 3), plaintext: false, text_mode: ctx.rng.bool(), ..Default::default() };
+            // "dense" mode: few names, deep mis-nested structure, structural selectors (sibling counters after stack unwinding)
+            let dense = ctx.rng.chance(2, 5);
+            const DENSE_NAMES: &[&str] = &["div", "span", "p", "b"];
+            let o = if dense {
+                structgen::Opts { foreign: ctx.rng.chance(1, 4), max_nodes: 40, max_depth: 9, esi: false, nonascii: false, plaintext: false, text_mode: false, comments: false, doctype: false, weird_attrs: false, names: Some(DENSE_NAMES), close_percent: *ctx.rng.pick(&[30usize, 50, 70]), ..Default::default() }
+            } else {
+                structgen::Opts { foreign: ctx.rng.chance(2, 3), max_nodes: 16, esi, nonascii: ctx.rng.chance(1, 3), plaintext: false, text_mode: ctx.rng.bool(), ..Default::default() }
+            };
             let doc = structgen::gen_doc(&mut ctx.rng, &o);
             let nsel = match ctx.rng.below(4) {
                 0 => 1,
                 1 => 2,
                 _ => ctx.rng.range(1, 6),
             };
-            let sels: Vec<SelList> = (0..nsel).map(|_| selgen::gen_list(&mut ctx.rng)).collect();
+            let sels: Vec<SelList> = (0..nsel).map(|_| if dense && !ctx.rng.chance(1, 4) { selgen::gen_structural(&mut ctx.rng, DENSE_NAMES) } else { selgen::gen_list(&mut ctx.rng) }).collect();
+            if dense {
+                ctx.count("dense_structure_cases");
+            }
             let cuts = gen::random_cuts(&mut ctx.rng, doc.bytes.len());
             let case = Case4 { sels, doc_hex: hex(&doc.bytes), doc: describe(&doc), cuts, esi };
             ctx.eval();
